@@ -526,11 +526,17 @@ func (x *Exec) feKernel(name string, args []Value) (Value, bool) {
 		a, b := x.feArg(args[0], q), x.feArg(args[1], q)
 		prodCheck(a, b, q)
 		_, rinv := s.radix(q)
-		lazy := uint64(1)
+		res := x.feReduced(a.P.mul(b.P).scale(rinv), q, 1)
 		if name == "MRedLazy" {
-			lazy = 2
+			// r = hi(x·y) - hi(m·q) + q with 0 <= hi(m·q) < q:  hi(x·y) < r <= hi(x·y) + q  (and below 2q)
+			hi := new(big.Int).Rsh(new(big.Int).Mul(a.Hi, b.Hi), 64)
+			hi.Add(hi, new(big.Int).SetUint64(q))
+			if lim := new(big.Int).SetUint64(2*q - 1); hi.Cmp(lim) > 0 {
+				hi = lim
+			}
+			res.Hi = hi
 		}
-		return x.feReduced(a.P.mul(b.P).scale(rinv), q, lazy), true
+		return res, true
 	case "BRed", "BRedLazy":
 		q := qOf(2)
 		a, b := x.feArg(args[0], q), x.feArg(args[1], q)
